@@ -27,16 +27,129 @@ def run(ctx):
             t = strip_refs(t)
             return is_call(t, "::collect") and is_call(strip_refs(call_args(t)[0]), "Path::components")
 
+        def nth_next(p):
+            """{next-call term: k} for the successive `it.next()` calls on an iterator local that starts as components(input): the k-th call
+            yields component k (Components is a fused iterator: once exhausted it keeps answering None)"""
+            seq = {}
+            count = {}
+            for e in p.events:
+                if e.kind == "call" and is_call(e.term, "Components<'a> as std::iter::Iterator>::next") and e.args:
+                    r = e.args[0]
+                    if isinstance(r, tuple) and r[0] == "refmut" and isinstance(r[1], tuple) and r[1][0] == "loc":
+                        l = r[1][1]
+                        st = r[1][2] if len(r[1]) > 2 else None
+                        first = is_call(strip_refs(st), "Path::components") if l not in count else (isinstance(st, tuple) and st and st[0] == "mutated" and st[1] == l)
+                        if not first:
+                            count[l] = None         # something else happened to the iterator: positions unknown from here on
+                            continue
+                        if count.get(l, 0) is None:
+                            continue
+                        seq[e.term] = count.get(l, 0)
+                        count[l] = count.get(l, 0) + 1
+            return seq
+
+        _KT = {}
+
+        def kind_table(pred):
+            """{kind: bool} for a predicate over one path component (a fn item or a closure): its answer for each Component variant, read off its
+            returning paths (a predicate whose answer is not a constant per variant gives None)"""
+            pred = strip_refs(pred)
+            key = None
+            if isinstance(pred, tuple) and pred and pred[0] == "const" and isinstance(pred[2], tuple) and pred[2] and pred[2][0] == "fn":
+                key = pred[2][1]
+                arg = ("param", 1)
+            elif isinstance(pred, tuple) and pred[:2] == ("agg", "closure"):
+                key = pred[2]
+                arg = ("param", 2)
+            if key is None or fx.fn(key) is None:
+                return None
+            if key in _KT:
+                return _KT[key]
+            tbl = {}
+            for k in KINDS:
+                d = mir.STD_VARIANTS[COMP][k]
+                outs = set()
+                for q in ret_paths(ctx.paths(key) or []):
+                    ok = True
+                    for c in q.conds():
+                        t = c.term
+                        if t[0] == "discr":
+                            x = strip_refs(t[1])
+                            while isinstance(x, tuple) and x and x[0] == "deref":
+                                x = strip_refs(x[1])
+                            if x == arg:
+                                if (c.fact[0] == "eq" and c.fact[1] != d) or (c.fact[0] == "ne" and d in c.fact[1]):
+                                    ok = False
+                                continue
+                        ok = ok and False      # a condition on anything else: not a pure predicate of the variant
+                    if ok:
+                        outs.add(const_of(q.end[1]) if const_of(q.end[1]) in (True, False) else None)
+                tbl[k] = next(iter(outs)) if len(outs) == 1 and None not in outs else None
+            _KT[key] = tbl if all(v is not None for v in tbl.values()) else None
+            return _KT[key]
+
+        def quantified(c):
+            """(lo, hi, kind table, 'all'|'any') for a condition `c[lo..hi].iter().all/any(pred)` over the components vector (hi None = its length)"""
+            t = strip_refs(c.term)
+            if not (is_call(t, "Iterator>::all", "Iterator>::any") and len(call_args(t)) == 2):
+                return None
+            it = strip_refs(call_args(t)[0])
+            while isinstance(it, tuple) and it and it[0] in ("loc", "refmut", "ref"):
+                it = strip_refs(it[2] if it[0] == "loc" and len(it) > 2 else it[1])
+            if not is_call(it, "[T]>::iter"):
+                return None
+            src = strip_refs(call_args(it)[0])
+            lo, hi = 0, None
+            if is_index_call(src) and canon_range(call_args(src)[0], call_args(src)[1]) is not None:
+                r = canon_range(call_args(src)[0], call_args(src)[1])
+                lo = const_int(r[0])
+                hi = None if r[1] == LEN else const_int(r[1])
+                if lo is None or (r[1] != LEN and hi is None):
+                    return None
+                src = call_args(src)[0]
+            if not comps_vec(coll(src)):
+                return None
+            tbl = kind_table(call_args(t)[1])
+            if tbl is None:
+                return None
+            return lo, hi, tbl, ("all" if is_call(t, "Iterator>::all") else "any")
+
         def row_paths(n, kinds):
             """returning paths consistent with `n components of the given kinds` (length and element tests in any of their written forms)"""
             out = []
             for p in rets:
                 ok = True
+                seq = nth_next(p)
                 for c in p.conds():
                     t = c.term
                     lf = length_fact(c)
+                    if t[0] == "discr" and strip_refs(t[1]) in seq:
+                        # it.next() (k-th call) was Some / None: more than k components / at most k
+                        k = seq[strip_refs(t[1])]
+                        some = c.fact == ("eq", 1) or (c.fact[0] == "ne" and 0 in c.fact[1])
+                        if c.fact[0] == "ne" and 0 in c.fact[1] and 1 in c.fact[1]:
+                            ok = False          # an Option that is neither None nor Some: the arm the compiler adds for completeness, never taken
+                        if some != (n > k):
+                            ok = False
+                        continue
+                    if t[0] == "discr" and isinstance(strip_refs(t[1]), tuple) and strip_refs(t[1])[0] == "field" and isinstance(strip_refs(t[1])[1], tuple) \
+                            and strip_refs(t[1])[1][0] == "downcast" and strip_refs(t[1])[1][2] == "Some" and strip_refs(strip_refs(t[1])[1][1]) in seq:
+                        i = seq[strip_refs(strip_refs(t[1])[1][1])]
+                        if kinds is not None and i < len(kinds):
+                            d = mir.STD_VARIANTS[COMP][kinds[i]]
+                            if (c.fact[0] == "eq" and c.fact[1] != d) or (c.fact[0] == "ne" and d in c.fact[1]):
+                                ok = False
+                        continue
                     if lf is not None and comps_vec(lf[0]):
                         if not lf[1](n):
+                            ok = False
+                    elif quantified(c) is not None and kinds is not None and isinstance(c.fact[1], bool):
+                        lo, hi, tbl, qk = quantified(c)
+                        sel = [tbl[kinds[i]] for i in range(lo, n if hi is None else min(hi, n))]
+                        val = all(sel) if qk == "all" else any(sel)
+                        if (hi is not None and hi > n) or lo > n:
+                            ok = False          # the sub-slice does not exist for this length: the path panics, it does not return
+                        elif val != c.fact[1]:
                             ok = False
                     elif t[0] == "discr":
                         el = element_of(t[1])
@@ -66,6 +179,11 @@ def run(ctx):
             want = "Ok" if kinds in (("Normal", "Normal"), ("ParentDir", "ParentDir", "Normal", "Normal")) else "Err(InvalidPath)"
             if outs != {want}:
                 bad.append((n, kinds, sorted(outs), want))
+                if os.environ.get("VERIF_DEBUG"):
+                    for p in ps:
+                        if outcome(p) != want:
+                            sq = nth_next(p)
+                            print("DEBUG row", n, kinds, outcome(p), [(sq.get(strip_refs(c.term[1])) if c.term[0] == "discr" else None, (sq.get(strip_refs(strip_refs(c.term[1])[1][1])) if c.term[0] == "discr" and isinstance(strip_refs(c.term[1]), tuple) and strip_refs(c.term[1])[0] == "field" and isinstance(strip_refs(c.term[1])[1], tuple) and len(strip_refs(c.term[1])[1]) > 2 else None), c.fact) for c in p.conds()])
         ctx.check(not bad, "D1-ACCEPT", NEW, "decision-table", "%d rows agree with the spec" % len(rows),
                   "%d row(s) differ, e.g. %d components %s -> %s, expected %s" % (len(bad), bad[0][0] if bad else 0, bad[0][1] if bad else "", bad[0][2] if bad else "", bad[0][3] if bad else ""), fn_span(body))
         ctx.floor("D1-ACCEPT", NEW, "rows", len(rows), 651)
@@ -85,6 +203,17 @@ def run(ctx):
             n = None
             lfs = [lf for lf in (length_fact(c) for c in p.conds()) if lf is not None and comps_vec(lf[0])]
             cand = [k for k in range(0, 8) if all(lf[1](k) for lf in lfs)] if lfs else []
+            seq = nth_next(p)
+            if not lfs and seq:
+                # the length as established by successive next() calls: Some for every position below n, None at n
+                def consistent(k):
+                    for c in p.conds():
+                        if c.term[0] == "discr" and strip_refs(c.term[1]) in seq:
+                            some = c.fact == ("eq", 1) or (c.fact[0] == "ne" and 0 in c.fact[1])
+                            if some != (k > seq[strip_refs(c.term[1])]):
+                                return False
+                    return True
+                cand = [k for k in range(0, 8) if consistent(k)]
             if len(cand) == 1:
                 n = cand[0]
             ctx.check(n in (2, 4), "D2-VALUES", NEW, "ok-path-length", "an accepted path fixes the number of components to 2 or 4",
@@ -119,7 +248,12 @@ def run(ctx):
                 nm = [x for x in subterms(t) if x[0] == "field" and x[2] == 0 and isinstance(x[1], tuple) and x[1][0] == "downcast" and x[1][2] == "Normal"]
                 if len(nm) == 1:
                     el = element_of(nm[0][1][1])
-                    return el is not None and comps_vec(el[0]) and el[1] == i
+                    if el is not None and comps_vec(el[0]) and el[1] == i:
+                        return True
+                    # ... or on the item of the i-th next() call
+                    x = strip_refs(nm[0][1][1])
+                    if isinstance(x, tuple) and x[0] == "field" and isinstance(x[1], tuple) and x[1][0] == "downcast" and x[1][2] == "Some" and seq.get(strip_refs(x[1][1])) == i:
+                        return True
                 return False
             if n == 2:
                 cc = concat(flds.get("full"))
